@@ -5,7 +5,7 @@ package db
 // C07 / C06 (pager part): the real unix pager against the POSIX record-lock
 // model, for every lock state of a foreign SQLite connection.
 
-const vhDBName = "/tmp/vh-c07.db"
+var vhDBName = verifTempName("vh-c07.db")
 
 func vhWriteDB() {
 	pg := vhHeaderPage(512, 1, 1)
@@ -157,7 +157,7 @@ func VH_C06_two_handles() {
 //verif:witnesses 4
 //verif:bounds file of 1 page at open (empty schema); a commit adds a table whose root is the new page 2 (row value symbolic) and bumps the counters; real filePager over the ghost file
 func VH_C08_growth() {
-	const name = "/tmp/vh-c08-grow.db"
+	name := verifTempName("vh-c08-grow.db")
 	f := VerifNewFile(512)
 	content := make([]byte, 1024)
 	copy(content, f.Page(1))
